@@ -15,6 +15,7 @@ again.
 from __future__ import annotations
 
 import collections
+import errno
 import os
 import pickle
 import struct
@@ -403,6 +404,12 @@ class SimPool:
         self._pending_async: List[SimAsyncResult] = []
         env.log("pool_create", pool=self._pool_no, n=self._n)
         env.stats["pool_sizes"].append(self._n)
+        f = env._match_fault("fork_fail", ".", pool=self._pool_no)
+        if f is not None:
+            # process creation refused (process limit, no memory for the page tables): what os.fork raises
+            env.fire(f, ".", at="pool_create", pool=self._pool_no)
+            eno = getattr(errno, str(f.get("errno", "EAGAIN")), errno.EAGAIN)
+            raise OSError(eno, os.strerror(eno))
         for i in range(self._n):
             p2c_r, p2c_w = os.pipe()
             c2p_r, c2p_w = os.pipe()
@@ -495,6 +502,8 @@ class SimPool:
             elif msg[0] == "done":
                 _t, cid, ok, out, events = msg
                 for ev in events:
+                    if ev.get("ev") == "fault_fired":
+                        env.fault_seen_in_worker(ev)
                     env.log_raw(ev)
                 env.log("chunk_done", pool=self._pool_no, chunk=cid, worker=wi, ok=ok,
                         exc=None if ok else type(out).__name__)
